@@ -77,7 +77,7 @@ def late_hs_histories(rng, n):
         f, g = rng.randrange(1, 200), rng.randrange(1, 200)
         prompt_hs = [[(0, 1, 0)]] * 8
         data = [[(0, 0, rng.randrange(1, 250))] for _ in range(8)]
-        shape = rng.randrange(4)
+        shape = rng.randrange(5)
         if shape == 0:      # explicit authentication that times out, pause, then exchanges
             ops = [(2, 1, rng.choice([1, 2, 3])), (5, pause, 0), (1, f, 3), (1, g, 3)]
             hs = [[(x, 1, 0)] for x in d] + prompt_hs
@@ -87,6 +87,12 @@ def late_hs_histories(rng, n):
         elif shape == 3:    # a FRESH connection (no session key yet): timed-out explicit authentication, pause, authenticate again
             ops = [(2, 1, rng.choice([1, 2, 3])), (5, pause, 0), (2, 1, 3), (1, f, 3), (1, g, 3)]
             hs = [[(x, 1, 0)] for x in d] + prompt_hs
+        elif shape == 4:    # authenticated; the connection lifetime ends; the exchange on the NEW connection meets late handshake
+            #                     replies; after a pause longer than every delay the next exchange must simply work
+            ops = [(6, 1000, 0), (2, 1, 3), (5, 1500, 0), (6, 600000, 0), (1, f, 3), (5, 7001, 0), (1, g, 3), (1, f, 3)]
+            # all three attempts (written at 0, 2 and 4 s) are answered only after the last one has given up (6 s)
+            d3 = rng.choice([[6499, 4501, 2499], [6101, 4101, 2101], [6499, 6499, 6499], [6203, 4777, 3011]])
+            hs = [[(0, 1, 0)]] + [[(x, 1, 0)] for x in d3] + prompt_hs
         else:               # device-level calls
             ops = [(4, 1, 0), (5, H12 + 1000, 0), (3, f, 0), (5, pause, 0), (3, g, 0), (3, f, 0)]
             hs = [[(0, 1, 0)]] + [[(x, 1, 0)] for x in d] + prompt_hs
